@@ -323,8 +323,8 @@ def h_jwe_object_again(ctx):
 
 
 PARTS = [
-    Part("jws-headers", h_jws, bound={"quick": 1, "thorough": 2}, split_depth=4, budget={"quick": 120, "thorough": 1800}),
-    Part("jwe-headers", h_jwe, bound={"quick": 1, "thorough": 1}, split_depth=4, budget={"quick": 120, "thorough": 1800}),
+    Part("jws-headers", h_jws, bound={"quick": 1, "thorough": 2}, split_depth=4, budget={"quick": 1200, "thorough": 1800}),
+    Part("jwe-headers", h_jwe, bound={"quick": 1, "thorough": 1}, split_depth=4, budget={"quick": 1200, "thorough": 1800}),
     Part("jwe-several-recipients", h_jwe_recipients, split_depth=4),
     Part("jwe-object-edited-and-encrypted-again", h_jwe_object_again, split_depth=4),
 ]
